@@ -249,6 +249,63 @@ fn args_case(ex: &Exes, bytes: &[u8], bounds: &[i64]) -> CaseResult {
     }
 }
 
+/// the C driver generated for several heap sizes (MB), linked with one allocating program
+fn heap_size_case(ex: &Exes) -> CaseResult {
+    let text = crate::families::space_family(0, 40);
+    let (asm, n) = match pipeline::front(&text).and_then(|c| pipeline::codegen(c.linear, Arch::X86)) {
+        Ok(x) => x,
+        Err(e) => return CaseResult::Discard(format!("infra: {e}")),
+    };
+    let obj = match ex.tc.assemble_x86(&asm, "c20_heap") {
+        Ok(o) => o,
+        Err(e) => return CaseResult::Discard(format!("infra: {e:?}")),
+    };
+    let mut reference: Option<(Vec<u8>, Option<i32>)> = None;
+    let mut classes = vec![];
+    for hs in [None, Some(1usize), Some(64), Some(1024), Some(2048), Some(3000)] {
+        let exe = match ex.tc.link(&obj, n, hs, &format!("c20_heap_{}", hs.unwrap_or(0))) {
+            Ok(e) => e,
+            Err(e) => return CaseResult::Discard(format!("infra: {e:?}")),
+        };
+        let r = match run_with_timeout(&exe, &["30".to_string()], Duration::from_secs(20)) {
+            Ok(r) => r,
+            Err(e) => return CaseResult::Discard(format!("infra: {e}")),
+        };
+        let got = (r.stdout.clone(), r.code);
+        match &reference {
+            None => reference = Some(got),
+            Some(want) => {
+                if *want != got {
+                    // is a zeroed allocation of that size possible here at all?
+                    let mb = hs.unwrap_or(32);
+                    let probe = ex.tc.dir.join("calloc_probe.c");
+                    let pexe = ex.tc.dir.join("calloc_probe.exe");
+                    let _ = std::fs::write(&probe, "#include <stdlib.h>\n#include <stdint.h>\nint main(int c, char **v) { void *p = calloc(UINT64_C(1048576) * strtoull(v[1], 0, 10), 1); return p ? 0 : 3; }\n");
+                    let built = Command::new("gcc").arg("-o").arg(&pexe).arg(&probe).status().map(|s| s.success()).unwrap_or(false);
+                    let can = built && run_with_timeout(&pexe, &[mb.to_string()], Duration::from_secs(20)).map(|r| r.code == Some(0)).unwrap_or(false);
+                    if !can {
+                        return CaseResult::Discard(format!("infra: this machine cannot allocate {mb} MB"));
+                    }
+                    return CaseResult::Fail(Failure {
+                        kind: "heapsize".into(),
+                        summary: format!(
+                            "the program behaves differently with --heap-size {mb}: status {:?} (signal {:?}), output {:?}; with the default heap: status {:?}, output {:?}",
+                            r.code,
+                            r.signal,
+                            String::from_utf8_lossy(&r.stdout),
+                            want.1,
+                            String::from_utf8_lossy(&want.0)
+                        ),
+                        details: json!({"source": text, "heap_size_mb": mb}),
+                    });
+                }
+            }
+        }
+        classes.push(format!("heap size {:?} MB", hs));
+    }
+    CaseResult::Pass { nontrivial: true, hash: hash_str("heap sizes"), classes, sample: None }
+}
+
 fn a64_args_case(bytes: &[u8], bounds: &[i64]) -> CaseResult {
     let mut c = Chooser::new(bytes);
     let k = c.choose(8);
@@ -288,7 +345,7 @@ fn a64_args_case(bytes: &[u8], bounds: &[i64]) -> CaseResult {
 pub fn check(ctx: &Ctx) -> i32 {
     let start = Instant::now();
     let mut ev = Evidence::default();
-    ev.rule = "printing: io.c of the working tree linked with a tiny C main; batches of up to 40 values drawn from all boundaries (0, +-1, +-9, +-10, powers of ten +-1, powers of two +-1, MIN, MAX, every d*10^e for d = 1..9 with neighbours and with small / nine-digit / twelve-digit tails), sums of up to three terms d*10^e (zeros inside the decimal form) and random 64-bit values; oracle: Rust's decimal formatting (+ newline for the line variant). arguments/status: programs `def main(a0..ak){ println_i64(a0); ...; ai }` for k = 0..5 compiled through the real pipeline and generate_c_driver, run natively with boundary/random decimal arguments; oracle: each parameter printed unchanged and in order, status = result mod 256; with one argument too few/too many: a message, non-zero status and no program output. AArch64: the same programs for k = 0..7 on the emulator with the arguments in X1..X7. Non-trivial: |value| >= 2^31 or k >= 3; distinct by hash of the values.".into();
+    ev.rule = "printing: io.c of the working tree linked with a tiny C main; batches of up to 40 values drawn from all boundaries (0, +-1, +-9, +-10, powers of ten +-1, powers of two +-1, MIN, MAX, every d*10^e for d = 1..9 with neighbours and with small / nine-digit / twelve-digit tails), sums of up to three terms d*10^e (zeros inside the decimal form) and random 64-bit values; oracle: Rust's decimal formatting (+ newline for the line variant). arguments/status: programs `def main(a0..ak){ println_i64(a0); ...; ai }` for k = 0..5 compiled through the real pipeline and generate_c_driver, run natively with boundary/random decimal arguments; oracle: each parameter printed unchanged and in order, status = result mod 256; with one argument too few/too many: a message, non-zero status and no program output. heap size: one allocating program linked with the C driver generated for heap sizes default, 1, 64, 1024, 2048 and 3000 MB must behave identically (if the machine can allocate that much). AArch64: the same programs for k = 0..7 on the emulator with the arguments in X1..X7. Non-trivial: |value| >= 2^31 or k >= 3; distinct by hash of the values.".into();
     ev.assumptions = vec!["gcc and GNU as of the sandbox; AArch64 entry on the emulator only".into()];
     let bounds = boundary_values();
     let ex = Exes { tc: Toolchain::new(ctx.scratch.clone()), printer: Mutex::new(None), progs: Mutex::new(HashMap::new()) };
@@ -348,6 +405,16 @@ pub fn check(ctx: &Ctx) -> i32 {
             report.violations.push(write_replay(ctx, "a64", &bytes, &f));
         }
     }
+    // heap-size option of the driver: an allocating program must behave the same for every
+    // sufficient heap size
+    if report.violations.is_empty() {
+        let r = heap_size_case(&ex);
+        if let CaseResult::Fail(f) = &r {
+            eprintln!("{}", f.summary);
+            report.violations.push(write_replay_with(ctx, "heap", &[], f, json!({})));
+        }
+        ev.absorb(&r);
+    }
     let infra: u64 = ev.discards.iter().filter(|(k, _)| k.starts_with("infra")).map(|(_, v)| *v).sum();
     if infra > 0 {
         report.infra_errors.push(format!("{infra} cases hit an infrastructure problem (see evidence)"));
@@ -373,7 +440,9 @@ pub fn replay(ctx: &Ctx, sub: &str, bytes: &[u8], case: &serde_json::Value) -> C
             Err(e) => CaseResult::Discard(format!("infra: {e}")),
         };
     }
-    if sub.starts_with("print") {
+    if sub.starts_with("heap") {
+        heap_size_case(&ex)
+    } else if sub.starts_with("print") {
         print_case(&ex, bytes, &bounds)
     } else if sub.starts_with("a64") {
         a64_args_case(bytes, &bounds)
